@@ -187,6 +187,7 @@ class Runner(object):
             pre_ids = set(self.digest.known_ids) | set(self.last_all_ids)
             src_before = (self.subwalk(xk, x), self.subwalk(xk, x, xk == "Section" and not children))
             self.src_dups = self.sub_dups
+            self.src_defined = self.sub_defined
             if dk == "File" and xk == "Block":
                 o = d.create_block(copy_from=x, keep_copy_id=keep, **kw)
             elif dk == "Block" and xk == "DataArray":
@@ -389,13 +390,26 @@ class Runner(object):
             toks = ["walk failed: " + type(exc).__name__]
         # two entities may share an id once a kept-id copy has been made inside this file
         self.sub_dups = bool(w.dup_ids) or getattr(self, "any_kept", False)
+        self.sub_defined = set(w.defined)          # the entities the subtree OWNS (without the targets of its links)
         return toks, set(w.defined) | set(t for _, _, t in w.linked if isinstance(t, str))
+
+    @staticmethod
+    def name_positions(toks):
+        """positions of NAME tokens in a walk: the token after [open, kind] of every entity but a feature (whose header has
+        no name). A name may look like an id - an entity created without a name is named by its id - and is kept by a copy."""
+        out = set()
+        for k in range(2, len(toks)):
+            if toks[k - 2] == nixwalk.OPEN and isinstance(toks[k - 1], int) and 100 <= toks[k - 1] <= 110 \
+                    and toks[k - 1] != nixwalk.KIND["Feature"]:
+                out.add(k)
+        return out
 
     def after_copy(self, op, d, x, o, xk, pre_ids, src_before):
         _, dh, xh, name, keep, children = op
         shallow = (xk == "Section" and not children)
         src, src_ids = src_before[1]
         cp, cp_ids = self.subwalk(xk, o)
+        cp_own = self.sub_defined
         ev = {"step": self.step - 1, "keep": bool(keep), "shallow": shallow, "problems": []}
         want_name = name if name is not None else x.name
         if o.name != want_name:
@@ -412,11 +426,10 @@ class Runner(object):
             ev["problems"].append("the copy's walk has %d tokens, the source's %d" % (len(cp), len(src)))
         else:
             ren = {}
+            names_at = self.name_positions(src)
             for k, (a, b) in enumerate(zip(src, cp)):
-                if k == 2 and xk != "Property":
-                    continue                  # the name in the header
-                if k == 2 and xk == "Property":
-                    continue
+                if k == 2 or k in names_at:
+                    continue                  # names (the top one may be replaced, the others are kept as they are)
                 if isinstance(a, str) and a in src_ids:
                     if keep:
                         if a != b:
@@ -458,7 +471,8 @@ class Runner(object):
         ev["inside_source"] = (self.subwalk(xk, x)[0] != src_before[0][0])
         if not ev["inside_source"] and len(self.pairs) < 4:
             self.pairs.append({"step": ev["step"], "keep": bool(keep), "kind": xk, "src": x, "cp": o, "shallow": shallow,
-                               "src_id": x.id, "cp_id": o.id, "src_ids": sorted(src_ids), "cp_ids": sorted(cp_ids)})
+                               "src_id": x.id, "cp_id": o.id, "src_ids": sorted(src_ids), "cp_ids": sorted(cp_ids),
+                               "src_own": sorted(getattr(self, "src_defined", src_ids)), "cp_own": sorted(cp_own)})
         return ev
 
     def cross_file_phase(self, path2):
@@ -505,8 +519,9 @@ class Runner(object):
                             problems.append("cross-file copy of %s %r: %d tokens, source %d" % (kind, x.name, len(cp[0]), len(src[0])))
                             continue
                         ren = {}
+                        names_at = self.name_positions(src[0])
                         for k, (a, b) in enumerate(zip(src[0], cp[0])):
-                            if k == 2:
+                            if k == 2 or k in names_at:
                                 continue
                             if isinstance(a, str) and a in src[1]:
                                 if keep and a != b:
@@ -635,7 +650,8 @@ class Runner(object):
         for p in self.pairs:
             a = repr(self.subwalk(p["kind"], p["src"], False)[0])
             b = repr(self.subwalk(p["kind"], p["cp"], False)[0])
-            out.append([p["step"], p["keep"], hash(a) & 0xffffffff, hash(b) & 0xffffffff, p["src_ids"], p["cp_ids"]])
+            out.append([p["step"], p["keep"], hash(a) & 0xffffffff, hash(b) & 0xffffffff, p["src_ids"], p["cp_ids"],
+                        p.get("src_own", p["src_ids"]), p.get("cp_own", p["cp_ids"])])
         return out
 
     # ---- model-free oracles for C13: plain recursion over the containers of fresh objects
